@@ -5,6 +5,7 @@ package main
 import (
 	"fmt"
 	"math"
+	"os"
 	"sort"
 	"time"
 
@@ -404,8 +405,27 @@ func engineCounters() (live, dbl, uac int) {
 func genVecBatch(c *ctx, nd int, id string, o vecOpts) zh.Batch {
 	bo := zh.RandOpts(c.R, nd, id)
 	bo.NFields = 2
-	return addVectors(c, zh.GenBatch(c.R, bo), o, 4)
+	b := addVectors(c, zh.GenBatch(c.R, bo), o, 4)
+	if mixedVecText && c.R.Chance(3) {
+		// the name of a vector field is an ordinary text field with doc values in documents that
+		// carry no vector under it (a field name has data in two sections)
+		for i := range b {
+			has := false
+			for _, f := range b[i].Fields {
+				if f.Name == "vec" {
+					has = true
+				}
+			}
+			if !has && c.R.Bool() {
+				b[i].Fields = append(b[i].Fields, zh.Field{Name: "vec", DV: true, Len: 1, Toks: []zh.Tok{{Term: "txt", Freq: 1}}})
+			}
+		}
+	}
+	return b
 }
+
+// mixedVecText: see genVecBatch
+var mixedVecText = true
 
 // ---------------- C14 ----------------
 
@@ -525,6 +545,92 @@ func largeVectorMerge(c *ctx) string {
 	return ""
 }
 
+// hugeVectorMerge: more than 2^18 floats of surviving vector data in one field of one merge (2190
+// vectors of 128 dimensions); every survivor must be found by a search for its own vector.  The
+// expectation follows from the construction (l2 distance 0), the extracted model is not consulted.
+func hugeVectorMerge(c *ctx) string {
+	const dims, per = 128, 1100
+	mk := func(id string) (*zap.SegmentBase, [][]float32, error) {
+		var b zh.Batch
+		var vecs [][]float32
+		for d := 0; d < per; d++ {
+			v := make([]float32, dims)
+			for i := range v {
+				v[i] = float32(c.R.Intn(201)-100) / 8
+			}
+			vecs = append(vecs, v)
+			b = append(b, zh.Doc{Fields: []zh.Field{zh.IDField(fmt.Sprintf("%s%04d", id, d)),
+				{Name: "vec", Typ: 'v', Vec: &zh.VecDef{Dims: dims, Sim: "l2_norm", Opt: "recall", Data: v}}}})
+		}
+		sb, _, err := zh.Build(b, 1026)
+		return sb, vecs, err
+	}
+	s1, v1, err := mk("u")
+	if err != nil {
+		return "build failed: " + err.Error()
+	}
+	s2, v2, err := mk("w")
+	if err != nil {
+		return "build failed: " + err.Error()
+	}
+	defer s1.Close()
+	defer s2.Close()
+	d1, d2 := []uint32{3, 500, 777, 1000, 1099}, []uint32{0, 1, 600, 900, 1098}
+	bm1, bm2 := roaring.BitmapOf(d1...), roaring.BitmapOf(d2...)
+	path := zh.TmpPath("c15huge")
+	defer os.Remove(path)
+	if _, _, err := zap.VerifMerge([]segment.Segment{s1, s2}, []*roaring.Bitmap{bm1, bm2}, path, 1026, nil, nil); err != nil {
+		return "merge failed: " + err.Error()
+	}
+	seg, err := zh.Plugin.Open(path)
+	if err != nil {
+		return "merged file cannot be opened: " + err.Error()
+	}
+	defer seg.Close()
+	// new number of every survivor and its vector
+	type surv struct {
+		doc uint64
+		v   []float32
+	}
+	var all []surv
+	nn := uint64(0)
+	for d := 0; d < per; d++ {
+		if !bm1.Contains(uint32(d)) {
+			all = append(all, surv{nn, v1[d]})
+			nn++
+		}
+	}
+	for d := 0; d < per; d++ {
+		if !bm2.Contains(uint32(d)) {
+			all = append(all, surv{nn, v2[d]})
+			nn++
+		}
+	}
+	c.Case("huge-vector-merge", true)
+	c.CountN("huge_merge_surviving_vectors", len(all))
+	probe := func(s surv) string {
+		hits, bad := runSearch(seg.(segment.VectorSegment), "vec", s.v, 1, nil, true, nil, false)
+		if bad != "" {
+			return bad
+		}
+		if len(hits) != 1 || hits[0].doc != s.doc || hits[0].bits != 0 {
+			return fmt.Sprintf("a search for the vector of merged document %d (k=1) returns %v; that document's own vector is at distance 0", s.doc, hits)
+		}
+		return ""
+	}
+	for i := 0; i < 40; i++ {
+		if bad := probe(all[c.R.Intn(len(all))]); bad != "" {
+			return bad
+		}
+	}
+	for i := len(all) - 150; i < len(all); i += 3 { // the tail of the merged data
+		if bad := probe(all[i]); bad != "" {
+			return bad
+		}
+	}
+	return ""
+}
+
 // ---------------- C15 ----------------
 
 func checkC15(c *ctx) {
@@ -532,6 +638,10 @@ func checkC15(c *ctx) {
 	c.Assumptions = append(c.Assumptions, "stand-in engine (see C14)")
 	if bad := largeVectorMerge(c); bad != "" {
 		c.Violation("C15 "+bad, false)
+		return
+	}
+	if bad := hugeVectorMerge(c); bad != "" {
+		c.Violation("C15 merge of 1100 + 1100 documents with 128-dimensional vectors, 10 deletions (2190 surviving vectors, more than 2^18 floats)\n"+bad, false)
 		return
 	}
 	waitQuiescent()
